@@ -514,6 +514,25 @@ def rule_uuid(chk, only=None):
                 for x in ast.walk(uu):
                     if isinstance(x, ast.Call) and any(t.kind == "ext" and t.ref == "uuid.uuid4" for t in ctx.cg.typer.resolve_call(f, x)):
                         fresh = True
+            shared_rng = None
+            if uu is not None and not fresh:
+                # 128 random bits formatted as a version-4 UUID: as good as uuid4() when the generator is private to eliot (seeded from the OS,
+                # out of the application's reach); the process-wide `random` generator can be re-seeded or restored by the application
+                for x in ast.walk(uu):
+                    if isinstance(x, ast.Call) and isinstance(x.func, (ast.Attribute, ast.Name)) and (x.func.attr if isinstance(x.func, ast.Attribute) else x.func.id) == "getrandbits":
+                        recv = x.func.value if isinstance(x.func, ast.Attribute) else x.func
+                        r_ = ctx.p.resolve_expr_static(f.module, f, recv) if isinstance(recv, (ast.Name, ast.Attribute)) else None
+                        if r_ and r_[0] == "modvar":
+                            vals_ = [v for v in r_[1].assigns.get(r_[2], []) if isinstance(v, ast.Call)]
+                            if len(vals_) == 1 and unparse(vals_[0].func).split(".")[-1] in ("Random", "SystemRandom") and not vals_[0].args:
+                                fresh = True
+                        elif r_ and r_[0] == "ext" and str(r_[1]).startswith("random"):
+                            shared_rng = unparse(x)
+            if shared_rng:
+                chk.bad("C02.uuid", "%s:fresh-uuid-per-root" % f.fq, chk.where(f, n.lineno),
+                        "the task uuid is made from `%s`, the process-wide generator of the random module: an application that calls random.seed(<constant>) per experiment / per worker, or "
+                        "restores a saved state with random.setstate(), makes later tasks repeat earlier task uuids -- two messages then share (task_uuid, task_level)" % shared_rng[:50])
+                continue
             chk.req(fresh, "C02.uuid", "%s:fresh-uuid-per-root" % f.fq, chk.where(f, n.lineno),
                     good="task_uuid = %s evaluated at the construction" % (uu is not None and unparse(uu)),
                     fail="a root action is created with task_uuid %s, which is not a uuid4() evaluated at this construction: two trees can share a uuid" % (uu is not None and unparse(uu)))
@@ -542,6 +561,11 @@ def rule_exit_order(chk):
         restoring = {f for f, n, k, c in uses if k == "reset" and f is not ex and f.name not in ("__enter__", "run", "context")}
         for f, n, k, c in uses:
             if f is ex and k == "reset":
+                nn, _m = common.node_of_call(cfg, c)
+                if nn is not None:
+                    resets.append(nn)
+            elif f is ex and k == "set" and c.args and not (isinstance(c.args[0], ast.Name) and c.args[0].id == "self"):
+                # putting another action back by value also ends this action's being current
                 nn, _m = common.node_of_call(cfg, c)
                 if nn is not None:
                     resets.append(nn)
